@@ -305,6 +305,24 @@ func (a *Act) chanSend(st *State, ch, v Val, chv ssa.Value, pos token.Pos) {
 		*top.sends = append(*top.sends, a.chanKey(chv))
 	}
 	defer a.countSend(st, a.chanKey(chv))
+	// site send <channel>: assertion on the value sent at this site (sentValue names it); per-function, unlike a chaninv
+	if a.con != nil && !a.inlined && a.vc.quiet == 0 {
+		ck := a.chanKey(chv)
+		for _, c := range a.con.Sites {
+			if c.Kind != "site-send" || !strings.HasSuffix(ck, c.LoopFn) {
+				continue
+			}
+			env := a.specEnv(st)
+			env.vars["sentValue"] = v
+			a.siteN++
+			name := fmt.Sprintf("%s/site send %s.%s#%d", a.prefix, c.LoopFn, c.Label, a.siteN)
+			if sv, err := env.evalBool(c.Expr); err != nil {
+				a.vc.oblige(name, "site", a.props, c.Line, st.guard, "false", "contract error: "+err.Error()+" in: "+c.Text)
+			} else {
+				a.vc.oblige(name, "site", a.props, a.pos(pos)+" ["+c.Line+"]", st.guard, sv, "at the send on "+c.LoopFn+": "+c.Text)
+			}
+		}
+	}
 	if ci == nil {
 		return
 	}
